@@ -461,7 +461,7 @@ func Generate(seed uint64, profile string, faults bool) *Scenario {
 		cfg.WAdvance = 4
 		opsPer = 8 + g.n(10)
 	case "C15":
-		mix = map[string]int{"schedule": 10, "cancel": 3, "read": 2, "list": 3}
+		mix = map[string]int{"schedule": 10, "cancel": 3, "read": 2, "list": 3, "reload": 2, "save": 1}
 		cfg.WSettle = 2
 		cfg.HTTP = true
 		cfg.Store = "mem"
